@@ -21,13 +21,20 @@ _REAL_SLEEP = _time.sleep
 
 def install(world: World) -> Dict[str, Any]:
     def sleep(delay: float) -> None:
-        world.rec('client', 'sleep', delay=delay, mode='blocking')
+        try:
+            task = asyncio.current_task()
+        except RuntimeError:
+            task = None
+        world.rec('client', 'sleep', delay=delay, mode='blocking',
+                  task=getattr(task, 'pjsim_caller', None) if task is not None else None)
         world.probe('sleep.blocking')
         if isinstance(delay, (int, float)) and delay > 0:
             world.now += delay
 
     async def asleep(delay: float, result: Any = None) -> Any:
-        world.rec('client', 'sleep', delay=delay, mode='async')
+        task = asyncio.current_task()
+        world.rec('client', 'sleep', delay=delay, mode='async',
+                  task=getattr(task, 'pjsim_caller', None) if task is not None else None)
         world.probe('sleep.async')
         return await asyncio.sleep(delay, result)
 
